@@ -13,6 +13,7 @@ package http
 //gvc:  theory int
 //gvc:  opt coarse
 //gvc:  opt frame args
+//gvc:  opt callees abstract
 //gvc:  sink PeekLine requires room: arg0.#bufsize >= 65520
-//gvc:  sink DiscoverVersion requires room: arg0.#bufsize >= 65520
+//gvc:  sink DiscoverVersion requires same: arg0 == rd
 //gvc:end
